@@ -252,6 +252,25 @@ fn main() {
                 println!("HARNESS-ERROR {}", e);
             }
         }
+        "ttdump" => {
+            // debug: search <fen1> to <depth> (1 worker, small table), then show the stored entry of <fen2>
+            let f1 = args.get(1).cloned().unwrap();
+            let d: usize = args.get(2).unwrap().parse().unwrap();
+            let f2 = args.get(3).cloned().unwrap();
+            let sd: u64 = args.get(4).and_then(|s| s.parse().ok()).unwrap_or(7234355430761336373);
+            let spec = sched::SchedSpec { seed: 1, strategy: sched::Strategy::RoundRobin, trace: None, step_cap: 10_000_000 };
+            let out = exec::execute(&spec, weechess_simrt::world::Run::new(1), move || {
+                use weechess_engine::searcher::verif;
+                let art = verif::new_artifact(13951412781934528337, 8, 64);
+                let st = bridge::state_from_fen(&f1).unwrap();
+                let art = verif::analyze_sync(st, &weechess_engine::eval::Evaluator::default(), sd, Some(d), Some(1), &verif::Cancel::new(), Some(art), &mut |_| {});
+                let h = verif::artifact_hash(&art, &bridge::state_from_fen(&f2).unwrap());
+                let dump = verif::artifact_dump(&art);
+                let hit: Vec<String> = dump.iter().filter(|s| s.key == h).map(|s| format!("{:?}", s.entry)).collect();
+                (hit, dump.len())
+            });
+            println!("{:?}", out.value);
+        }
         "selfcheck" => {
             let what = args.get(1).map(|s| s.as_str()).unwrap_or("oracle");
             let code = match what {
